@@ -17,9 +17,9 @@ func init() {
 			Name: "proclaim",
 			Args: []*slip.DocArg{
 				{
-					Name: "specifiers",
+					Name: "specifier",
 					Type: "object",
-					Text: "Specifiers not evaluated.",
+					Text: "Specifier not evaluated.",
 				},
 			},
 			Text: `__proclaim__ is never evaluated.`,
@@ -34,5 +34,6 @@ type Proclaim struct {
 
 // Call the function with the arguments provided.
 func (f *Proclaim) Call(s *slip.Scope, args slip.List, depth int) slip.Object {
+	slip.CheckArgCount(s, depth, f, args, 1, 1)
 	return slip.Novalue
 }
